@@ -110,6 +110,22 @@ def mutate_tokens(tokens, rng):
     return " ".join(t)
 
 
+def mutate_bytes(text, rng):
+    """Byte-level edits of the query text: any byte value, anywhere (outside and inside literals)."""
+    b = bytearray(text.encode("latin-1"))
+    for _ in range(rng.choice([1, 1, 2, 3])):
+        k = rng.random()
+        c = rng.choice([rng.randrange(0x80, 0x100), rng.randrange(1, 0x20), 0x7f, rng.randrange(0x20, 0x7f), 0xc3, 0xff, 0x80])
+        pos = rng.randrange(len(b) + 1)
+        if k < 0.6 or not b:
+            b.insert(pos, c)
+        elif k < 0.9:
+            b[min(pos, len(b) - 1)] = c
+        else:
+            del b[min(pos, len(b) - 1)]
+    return b.decode("latin-1")
+
+
 def job_reject(payload):
     seed, count = payload
     common.drop_driver()
@@ -124,6 +140,7 @@ def job_reject(payload):
             # deletion of the token at every position + random edits
             variants = [" ".join(toks[:i] + toks[i + 1:]) for i in range(len(toks))][:30]
             variants += [mutate_tokens(toks, rng) for _ in range(10)]
+            variants += [mutate_bytes(" ".join(toks), rng) for _ in range(8)]
             for v in variants:
                 out["mutants"] += 1
                 r = d.req("parse q=%s" % common.hx(v))
